@@ -172,7 +172,3 @@ Definition has_prefix (m : list (name * Z)) (n : name) : bool := hasp_f (assoc_g
 Inductive wf : trie -> Prop :=
 | wf_node v ch : -1 <= v -> NoDup (map fst ch) ->
                  (forall c s, In (c, s) ch -> wf s) -> wf (Node v ch).
-(** No dead branches: every non-root node has a registered name below or at it. *)
-Inductive live : trie -> Prop :=
-| live_node v ch : (forall c s, In (c, s) ch -> live s /\ exists n, 0 <= get_exact s n) ->
-                   live (Node v ch).
